@@ -9,7 +9,7 @@
 From Coq Require Import Permutation Sorted.
 From CC Require Import Base.Prelude Base.Scalar Model.Sort.
 From CC Require Import Proofs.SortProofs Proofs.PermProofs Proofs.IntKeyProofs
-  Proofs.RadixProofs Proofs.SortOpProofs Proofs.ApplyOpProofs.
+  Proofs.RadixProofs Proofs.SortOpProofs Proofs.ApplyOpProofs Proofs.SortMultiBit.
 
 (* ---- plaintext Sort ---- *)
 (* the output key rows are in non-decreasing lexicographic order *)
@@ -120,6 +120,19 @@ Definition C18_lsd_radix_is_stable_sort_full : Prop := forall pi_of b keys,
   (forall i, is_perm (length keys) (pi_of i)) ->
   radix_sigma gen_multi_bit_sort pi_of b keys = Ok (inv_perm (sorting_permutation keys)).
 
+(* Algorithm 11's counting formula returns the rank of every chunk row (the inverse stable
+   sorting permutation of the chunk): EVERY chunk width l >= 0 and EVERY table height, chunk
+   rows of l bits.  (Without the bit hypothesis the statement is false: the value of a row of
+   arbitrary integers is not monotone in the lexicographic order, see the Example below.) *)
+Theorem C18_gen_multi_bit_sort_ranks : forall l k,
+  Forall (fun r => length r = l /\ Forall (fun x => x = 0 \/ x = 1) r) k ->
+  gen_multi_bit_sort k = inv_perm (sorting_permutation k).
+Proof. exact gen_multi_bit_sort_ranks. Qed.
+
+(* hence the full statement: the schedule with the concrete formula plugged in *)
+Theorem C18_lsd_radix_is_stable_sort : C18_lsd_radix_is_stable_sort_full.
+Proof. exact lsd_radix_gen_multi_bit_sort. Qed.
+
 (* the whole secure sort of a column = the plaintext Sort of that column *)
 Theorem C18_radix_sort_is_plaintext_sort_partial :
   forall ms, ms_spec ms -> forall pi_of (A : Type) (d : A) pi_fin b keys (col : list A),
@@ -129,6 +142,17 @@ Theorem C18_radix_sort_is_plaintext_sort_partial :
   radix_sort_column ms pi_of pi_fin d b keys col
   = Ok (apply_perm d (sorting_permutation keys) col).
 Proof. exact radix_sort_column_is_sort. Qed.
+
+Definition C18_radix_sort_is_plaintext_sort_full : Prop :=
+  forall pi_of (A : Type) (d : A) pi_fin b keys (col : list A),
+  (1 <= b)%nat -> Forall (fun r => length r = b /\ Forall (fun x => x = 0 \/ x = 1) r) keys ->
+  (forall i, is_perm (length keys) (pi_of i)) -> is_perm (length keys) pi_fin ->
+  length col = length keys ->
+  radix_sort_column gen_multi_bit_sort pi_of pi_fin d b keys col
+  = Ok (apply_perm d (sorting_permutation keys) col).
+
+Theorem C18_radix_sort_is_plaintext_sort : C18_radix_sort_is_plaintext_sort_full.
+Proof. exact radix_sort_column_gen_multi_bit_sort. Qed.
 
 (* one LSD pass composes with the previous ones because it is stable (any split of the key) *)
 Theorem C18_radix_compose : forall (keys : list (list Z)) (fh fl : list Z -> list Z) (c : nat),
@@ -191,6 +215,26 @@ Proof.
     intros x Hx. simpl in *. intuition lia.
 Qed.
 
+(* the bit hypothesis of C18_gen_multi_bit_sort_ranks is needed (so ms_spec itself, which
+   quantifies over all integer rows, does not hold of the formula): two rows of non-bits with
+   the same value; and the full theorems are not vacuous: a 5-bit key (chunks 1 + 2 + 2) *)
+Example C18_gen_multi_bit_sort_needs_bits :
+  let k := [[1; 0]; [0; 2]] in
+  gen_multi_bit_sort k = [0; 1]%nat /\ inv_perm (sorting_permutation k) = [1; 0]%nat.
+Proof. vm_compute. split; reflexivity. Qed.
+
+Example C18_example_radix_full :
+  let keys := [[1;0;1;1;0]; [0;1;1;0;1]; [1;0;1;1;0]; [0;0;0;1;1]; [1;1;0;0;0]; [0;1;1;0;0]] in
+  Forall (fun r => length r = 5%nat /\ Forall (fun x => x = 0 \/ x = 1) r) keys /\
+  radix_sigma gen_multi_bit_sort (fun _ => [2;0;4;1;5;3]%nat) 5 keys = Ok [3; 2; 4; 0; 5; 1]%nat /\
+  inv_perm (sorting_permutation keys) = [3; 2; 4; 0; 5; 1]%nat.
+Proof.
+  split; [|split; vm_compute; reflexivity].
+  repeat (apply Forall_cons;
+          [split; [reflexivity|repeat (apply Forall_cons; [lia|]); apply Forall_nil]|]).
+  apply Forall_nil.
+Qed.
+
 Example C18_example_intkey :
   integer_to_bits I8 (-128) = [0;0;0;0;0;0;0;0] /\ integer_to_bits I8 (-1) = [0;1;1;1;1;1;1;1] /\
   integer_to_bits I8 0 = [1;0;0;0;0;0;0;0] /\ integer_to_bits I8 127 = [1;1;1;1;1;1;1;1] /\
@@ -213,6 +257,9 @@ Print Assumptions C18_inverse_is_perm.
 Print Assumptions C18_intkey_monotone.
 Print Assumptions C18_lsd_radix_is_stable_sort_partial.
 Print Assumptions C18_radix_sort_is_plaintext_sort_partial.
+Print Assumptions C18_gen_multi_bit_sort_ranks.
+Print Assumptions C18_lsd_radix_is_stable_sort.
+Print Assumptions C18_radix_sort_is_plaintext_sort.
 Print Assumptions C18_radix_compose.
 Print Assumptions C18_shuffle_conjugation.
 Print Assumptions C18_shuffle_conjugation_final.
